@@ -262,8 +262,8 @@ def clauses(tier, seed):
              run_identities, replay=replay_identity, group='jax-b', heavy=True),
   ]
   try:
-    from contracts import sigma_contracts
-    cl += sigma_contracts.clauses()
+    from contracts import sigma_contracts, conformance_contracts
+    cl += sigma_contracts.clauses() + [conformance_contracts.clauses()['C13']]
   except ImportError:
     pass
   return cl
